@@ -40,6 +40,29 @@ var _ Unit = (*Storage)(nil)
 func (m ResourceUnits) Add(rhs ResourceUnits) (ResourceUnits, error) {
 	res := m
 
+	// Make a deep copy of the units (as Sub does): neither operand may be modified through the result
+	if m.CPU != nil {
+		cpu := *m.CPU
+		res.CPU = &cpu
+	} else if rhs.CPU != nil {
+		cpu := *rhs.CPU
+		rhs.CPU = &cpu
+	}
+	if m.Memory != nil {
+		memory := *m.Memory
+		res.Memory = &memory
+	} else if rhs.Memory != nil {
+		memory := *rhs.Memory
+		rhs.Memory = &memory
+	}
+	if m.Storage != nil {
+		storage := *m.Storage
+		res.Storage = &storage
+	} else if rhs.Storage != nil {
+		storage := *rhs.Storage
+		rhs.Storage = &storage
+	}
+
 	if res.CPU != nil {
 		if err := res.CPU.add(rhs.CPU); err != nil {
 			return ResourceUnits{}, err
